@@ -85,6 +85,7 @@ def run(ctx):
     r = repo.resolve_method(GC, "GCRepositoryPackCollection", "_check_new_inventories")
     if r is not None and r[0] == GC:
         c06.check_presence_sets(ctx, r[2], f"{GC}:GCRepositoryPackCollection._check_new_inventories")
+        c06.check_chk_root_sets(ctx, r[2], f"{GC}:GCRepositoryPackCollection._check_new_inventories")
         c06.check_interesting_key_sets(ctx, r[2], f"{GC}:GCRepositoryPackCollection._check_new_inventories")
         names = {call_attr(c) for c in calls_in(r[2])}
         ctx.check("R3-gc-check-no-fallbacks", f"{GC}:GCRepositoryPackCollection._check_new_inventories", "without_fallbacks" in names and not any("_fallback_repositories" in norm(n) for n in walk_own(r[2])), "the completeness check looks only at this repository's own indices (no fallback lookups)")
@@ -93,6 +94,29 @@ def run(ctx):
     fin = need(wherec, calling(gc, attr={"finish", "allocate", "_save_pack_names", "autopack"}), "finish/allocate/save")
     k1_before(ctx, "R3-check-before-finish", wherec, gc, chk, fin, "the completeness check precedes finishing/listing any pack")
 
+    # ---- R5: a fetch is finished only when the sink reported nothing missing --------------------------------
+    FT = "breezy/bzr/fetch.py"
+    fn, g, where = fn_cfg(ctx, FT, "RepoFetcher._fetch_everything_for_search")
+    fin = need(where, calling(g, attr="finished", recv="self.sink"), "self.sink.finished()")
+    ins = need(where, calling(g, attr="insert_stream", recv="self.sink"), "self.sink.insert_stream(...)")
+    for i in ins:
+        a = g.nodes[i].ast
+        ok_shape = isinstance(a, ast.Assign) and isinstance(a.targets[0], ast.Tuple) and len(a.targets[0].elts) == 2
+        ctx.check("R5-fetch-complete-before-finish", where, ok_shape, "insert_stream's (resume_tokens, missing_keys) result is kept", construct=g.nodes[i].text())
+        if not ok_shape:
+            continue
+        rt, mk = (norm(e) for e in a.targets[0].elts)
+        for v, what in ((mk, "keys the sink still misses (parent inventories / texts across the stacking boundary)"), (rt, "a write group left suspended")):
+            cut = set()
+            for t in g.nodes:
+                if t.kind == "test" and norm(t.ast) == v:
+                    cut |= {(t.id, b, l) for (b, l) in g.succ[t.id] if l == "F"}
+                elif t.kind == "test" and norm(t.ast) == f"not {v}":
+                    cut |= {(t.id, b, l) for (b, l) in g.succ[t.id] if l == "T"}
+            r = g.copy_without(cut).without_exc_edges().reach([i], avoid=set(ins) - {i})
+            hit = sorted(set(fin) & r)
+            w = g.copy_without(cut).without_exc_edges().path([i], hit, avoid=set(ins) - {i}) if hit else None
+            ctx.check("R5-fetch-complete-before-finish", where, not hit, f"after {g.nodes[i].text()[:50]} the fetch is finished only through the 'nothing left' edge of a test of `{v}`", construct=g.nodes[i].text()[:70], message=f"sink.finished() is reachable although `{v}` — {what} — was not tested to be empty: the fetch is reported complete and the branch tip can move to a revision the stacked repository cannot reconstruct", witness=g.show_path(w) if w else None)
     # ---- R4 -----------------------------------------------------------------
     fn, g, where = fn_cfg(ctx, VF, "VersionedFileRepository.get_missing_parent_inventories")
     empties = [n.id for n in g.nodes if n.kind == "stmt" and isinstance(n.ast, ast.Return) and norm(n.ast.value) == "set()"]
@@ -120,6 +144,8 @@ def run(ctx):
 
 
 MUTANTS = [
+    Mutant("fetch finished although keys are still missing", "breezy/bzr/fetch.py", "            if missing_keys:\n                raise AssertionError(\n                    f\"second push failed to complete a fetch {missing_keys!r}.\"\n                )\n", "            if missing_keys:\n                mutter(\"fetch incomplete: %r\", missing_keys)\n", expect="R5-fetch-complete-before-finish"),
+    Mutant("pid map walked from the id_to_entry roots", GC, "            root_key_info.interesting_pid_root_keys,\n            root_key_info.uninteresting_pid_root_keys,", "            root_key_info.interesting_root_keys,\n            root_key_info.uninteresting_pid_root_keys,", expect="R1-chk-roots-walked"),
     Mutant("commit_write_group before the refill", VF, "        self.repository._add_revision(rev)\n        self._ensure_fallback_inventories()\n        if self._owns_transaction:\n            self.repository.commit_write_group()\n", "        self.repository._add_revision(rev)\n        if self._owns_transaction:\n            self.repository.commit_write_group()\n        self._ensure_fallback_inventories()\n", expect="R1-refill-before-commit"),
     Mutant("refill remainder returns instead of raising", VF, "        if missing_keys:\n            raise errors.BzrError(\n                \"Unable to fill in parent inventories for a stacked branch\"\n            )\n", "        if missing_keys:\n            trace.mutter(\"Unable to fill in parent inventories for a stacked branch\")\n", expect="R2-remainder-raises"),
     Mutant("refill set computed against the stacked view", VF, "        parent_map = self.repository.inventories._index.get_parent_map(parent_keys)\n        missing_parent_keys", "        parent_map = self.repository.inventories.get_parent_map(parent_keys)\n        missing_parent_keys", expect="R2-refill-set"),
